@@ -427,6 +427,13 @@ def run(ctx):
     ctx.run_clause("C11.d", lambda c: column_kind_agreement(c, prog, "fjall", "fjall"))
     ctx.run_clause("C11.f", lambda c: operation_order(c, prog, "fjall", "fjall"))
     ctx.run_clause("C11.g", lambda c: consume_replays_all(c, prog, "Fjall", "fjall", "fjall"))
+    # both backends hand every stored value / member / key to the one Postcard decoder: the raw-read and varint-reader
+    # clauses of the serializer (C12.l, C12.k) are necessary conditions of "a read returns the committed bytes" here too
+    from . import C12
+    ctx.alias = {"C12.l": "C11.h", "C12.k": "C11.h"}
+    ctx.run_clause("C11.h", lambda c: C12.c12l(c, prog))
+    ctx.run_clause("C11.h", lambda c: C12.c12k(c, prog))
+    ctx.alias = {}
     try:
         rocks = ctx.program("rocks")
     except Exception as e:  # EngineError is reported by the caller
